@@ -16,7 +16,7 @@ def write_if_changed(path, text):
 
 
 def run(only=None):
-    from translate import py_int2coq, py_consts2coq, py_effects2coq, py_ledger2coq, py_disp2coq, py_shift2coq, py_float2coq, py_hilbert2coq, py_stft2coq, py_ufunc2coq, py_pol2coq, py_concat2coq, py_reader2coq
+    from translate import py_int2coq, py_consts2coq, py_effects2coq, py_ledger2coq, py_disp2coq, py_shift2coq, py_float2coq, py_hilbert2coq, py_stft2coq, py_ufunc2coq, py_pol2coq, py_concat2coq, py_reader2coq, py_predictor2coq
     jobs = {
         'GenUtils.v': lambda: py_int2coq.generate(os.path.join(REPO, 'utils.py'), ['next_fast_len', 'prev_fast_len']),
         'GenConsts.v': lambda: py_consts2coq.generate(REPO),
@@ -26,6 +26,7 @@ def run(only=None):
         'GenDisp.v': lambda: py_disp2coq.generate('/repo'),
         'GenShift.v': lambda: py_shift2coq.generate('/repo'),
         'GenSnippet.v': lambda: py_shift2coq.generate_snippet('/repo'),
+        'GenFastLenCrop.v': lambda: py_shift2coq.generate_fast_len('/repo'),
         'GenPhase.v': lambda: py_float2coq.generate('/repo'),
         'GenPhaseOrd.v': lambda: py_float2coq.generate_ord('/repo'),
         'GenHilbert.v': lambda: py_hilbert2coq.generate('/repo'),
@@ -34,6 +35,7 @@ def run(only=None):
         'GenPol.v': lambda: py_pol2coq.generate('/repo'),
         'GenConcat.v': lambda: py_concat2coq.generate('/repo'),
         'GenReader.v': lambda: py_reader2coq.generate('/repo'),
+        'GenPolyco.v': lambda: py_predictor2coq.generate('/repo'),
     }
     res = {}
     os.makedirs(GEN, exist_ok=True)
